@@ -28,7 +28,15 @@ fn run(kind: Kind, s: &Scenario, times: &[i64]) -> Result<Vec<Obs>, (usize, Stri
             let _ = (sut.update)();
             (sut.get)()
         }) {
-            Ok(o) => outs.push(o),
+            Ok(o) => {
+                // the Quantity variants hand back what they were fed: same unit as the samples
+                if let (Obs::Some(..), Some(u)) = (&o, (sut.out_unit)()) {
+                    if u != p.unit() {
+                        return Err((i, format!("UNIT: the output carries unit {:?}, the samples carry {:?}", u, p.unit())));
+                    }
+                }
+                outs.push(o)
+            }
             Err(m) => return Err((i, m)),
         }
     }
@@ -42,6 +50,7 @@ pub fn check(s: &Scenario) -> CheckResult {
     for kind in [Kind::EwmaF32, Kind::EwmaQuantity, Kind::MovingAverageF32, Kind::MovingAverageQuantity] {
         match run(kind, s, &times) {
             Ok(o) => all.push(o),
+            Err((i, m)) if m.starts_with("UNIT: ") => return Err(Violation::new(format!("C12/{:?}/unit", kind), format!("{:?} at event {} ({:?}) of history {:?}: {}", kind, i, s.events[i], &s.events[..=i], &m[6..]))),
             Err((i, m)) => return Err(Violation::new(format!("C12/{:?}/panic", kind), format!("{:?} panicked at event {} ({:?}) of history {:?} (window {} ns, smoothing {}): {}", kind, i, s.events[i], &s.events[..=i], s.window, s.smoothing, m))),
         }
     }
